@@ -185,7 +185,76 @@ func underNilGuard(info *types.Info, f *ScopeFunc, n ast.Node) (string, bool) {
 			if strings.HasSuffix(s, ".IsNil()") {
 				return "inside `if " + s + "`", true
 			}
+			// a flag computed by a helper that sets it only under its own nil guard
+			if id, ok := core.Unparen(p.Cond).(*ast.Ident); ok {
+				if why, ok := nilFlagFromHelper(info, f, id); ok {
+					return why, true
+				}
+			}
 		}
+	}
+	return "", false
+}
+
+// nilFlagFromHelper: `v, isNil, err := helper(x)` where helper returns true in
+// that position only from return statements that are themselves under a
+// nil-input guard.
+func nilFlagFromHelper(info *types.Info, f *ScopeFunc, id *ast.Ident) (string, bool) {
+	obj := info.Uses[id]
+	var call *ast.CallExpr
+	pos, defs := -1, 0
+	ast.Inspect(f.Body, func(n ast.Node) bool {
+		as, ok := n.(*ast.AssignStmt)
+		if !ok || len(as.Rhs) != 1 {
+			return true
+		}
+		for i, l := range as.Lhs {
+			if li, ok := l.(*ast.Ident); ok && (info.Defs[li] == obj || info.Uses[li] == obj) {
+				defs++
+				if c, ok := core.Unparen(as.Rhs[0]).(*ast.CallExpr); ok {
+					call, pos = c, i
+				}
+			}
+		}
+		return true
+	})
+	if defs != 1 || call == nil {
+		return "", false
+	}
+	fn := core.CalleeFunc(info, call)
+	if fn == nil || fn.Pkg() != f.Pkg.Types {
+		return "", false
+	}
+	hd := core.DeclOf(f.Pkg, fn.Origin())
+	if hd == nil || hd.Body == nil {
+		return "", false
+	}
+	hf := &ScopeFunc{Pkg: f.Pkg, Node: hd, Body: hd.Body, Type: hd.Type, Name: hd.Name.Name}
+	trues, guarded := 0, 0
+	bad := false
+	ast.Inspect(hd.Body, func(n ast.Node) bool {
+		if _, isLit := n.(*ast.FuncLit); isLit {
+			return false
+		}
+		ret, ok := n.(*ast.ReturnStmt)
+		if !ok || pos >= len(ret.Results) {
+			return true
+		}
+		tv, isConst := info.Types[ret.Results[pos]]
+		if !isConst || tv.Value == nil {
+			bad = true
+			return true
+		}
+		if tv.Value.String() == "true" {
+			trues++
+			if _, ok := underNilGuard(info, hf, ret); ok {
+				guarded++
+			}
+		}
+		return true
+	})
+	if !bad && trues > 0 && trues == guarded {
+		return "under `if " + id.Name + "`, a flag " + hd.Name.Name + " sets only under its own nil-input guard", true
 	}
 	return "", false
 }
